@@ -92,6 +92,8 @@ def run_cases(cases, res, stratum):
             res.fail(dict(c, spelling=bads[0][0]), 'C12: fxp_sum(dtype=<spelling>) (the second dtype parser) does not give the format the spelling denotes', expected=(s, n, nf), got=bads[0][1]); k += len(obs['parse']); continue
         if obs['sum_dtype'] != (s, n, nf):
             res.fail(c, 'C12: fxp_sum(dtype=x.dtype) (utils.get_sizes_from_dtype) does not reproduce the format', expected=(s, n, nf), got=obs['sum_dtype']); k += len(obs['parse']); continue
+        if obs.get('ctor_real') is not None and ('complex' in obs['ctor_real'][0]) != cx:
+            res.fail(c, 'C12: constructing with dtype=<string> and a real value does not reproduce the format the string denotes (the complex suffix)', expected=fxp_str(s, n, nf, cx), got=obs['ctor_real']); k += len(obs['parse']); continue
         for key in ('ctor_real', 'complex_then_real'):
             ob = obs.get(key)
             if ob is not None and (ob[0] != ob[1] or ('complex' in ob[0]) != ob[2]):
